@@ -248,6 +248,7 @@ func init() {
 	}
 	verifIntrinsics["verifCover"] = func(fr *frame, args []value) value {
 		fr.ex().stats.Covers[args[0].(string)]++
+		fr.ex().coverSeq = append(fr.ex().coverSeq, args[0].(string))
 		return nil
 	}
 	verifIntrinsics["verifParam"] = func(fr *frame, args []value) value {
@@ -274,7 +275,10 @@ func init() {
 		ts := fr.ex().ts
 		return fromBoolTerm(ts.Eq(toBoolTerm(ts, args[0]), toBoolTerm(ts, args[1])))
 	}
-	verifIntrinsics["verifSymbolic"] = func(fr *frame, args []value) value { return !fr.ex().concrete }
+	verifIntrinsics["verifSymbolic"] = func(fr *frame, args []value) value {
+		fr.ex().modeSplit = true
+		return true
+	}
 	verifIntrinsics["verifMapOrder"] = func(fr *frame, args []value) value {
 		fr.ex().mapOrder = args[0].(int)
 		return nil
@@ -285,7 +289,11 @@ func init() {
 	}
 	verifIntrinsics["verifObserve"] = func(fr *frame, args []value) value {
 		ex := fr.ex()
-		ex.observe(args[0].(string), args[1])
+		v := args[1]
+		if i, ok := v.(iface); ok {
+			v = i.v
+		}
+		ex.observe(args[0].(string), v)
 		return nil
 	}
 	verifIntrinsics["verifSetGhost"] = func(fr *frame, args []value) value {
@@ -496,6 +504,10 @@ func (e *Exec) nextVec(kind, label string) ReplayVal {
 }
 
 func (e *Exec) observe(label string, v value) {
+	if s, ok := v.(string); ok {
+		e.events = append(e.events, label+"="+strconv.Quote(s))
+		return
+	}
 	e.events = append(e.events, label+"="+toString(v))
 }
 
